@@ -46,6 +46,13 @@ Calls ==
    \cup {[k |-> "dscore", n |-> n, m |-> m, v |-> v, eps |-> e] : n \in {0, 1, 2, 3}, m \in {0, 1, 2, 3}, v \in {"fin", "nan", "const", "pinf", "huge"}, e \in {0, 1}}
    \cup {[k |-> "pit", n |-> n, m |-> m, v |-> v, random |-> r] : n \in {0, 1, 3}, m \in {0, 1, 3}, v \in {"fin", "nan", "pinf"}, r \in BOOLEAN}
    \cup {[k |-> "ad_test", n |-> n, v |-> v] : n \in Ns, v \in {"unit", "fin", "nan", "neg", "zero", "pinf"}}
+   \* inputs that live in read-only memory (a memory-mapped file opened for reading): a kernel that writes into its INPUT dies
+   \cup {[k |-> "ad_test", n |-> n, v |-> "romap"] : n \in {1, 3, 5}}
+   \cup {[k |-> "eckhardt", n |-> 5, v |-> "romap", tt |-> 1, thresh |-> 1, tau |-> 20]}
+   \cup {[k |-> kk, n |-> 5, v |-> "romap", ix |-> "runs", op |-> 0, maxnan |-> 0] : kk \in {"aggregate"}}
+   \cup {[k |-> "flathomogen", n |-> 5, v |-> "romap", ix |-> "runs", maxnan |-> 0]}
+   \cup {[k |-> "crps", n |-> 3, v |-> "romap", m |-> 2]}
+   \cup {[k |-> "pareto_front", n |-> 3, d |-> 2, v |-> "romap", ori |-> 1]}
    \cup {[k |-> kk, order |-> o, n |-> n, v |-> v, nanparam |-> np, mean |-> 1, ini |-> 0] :
         kk \in {"armodel_sim", "armodel_residual"}, o \in {0, 1, 2, 10, 11, 30}, n \in {0, 1, 3, 25}, v \in {"fin", "nan", "mixnan", "pinf"}, np \in BOOLEAN}
    \cup {[k |-> "pareto_front", n |-> n, d |-> d, v |-> v, ori |-> o] : n \in {0, 1, 3}, d \in {0, 1, 2}, v \in {"fin", "nan", "mixnan", "const", "pinf"}, o \in {-1, 1, 0, 2}}
